@@ -41,3 +41,18 @@ Theorem c07_nested_invocation_loop_refuted :
   forall fuel s, hook s = true -> exec fuel (Forever (Nested Loop)) s = None.
 Proof. exact forever_nested_never_returns. Qed.
 Print Assumptions c07_nested_invocation_loop_refuted.
+
+(* BEGIN PINS (tools/repin.py) *)
+From WTP Require Import Gen.GenPins.
+Module Pins.
+Import String.
+(* The models of this property were transcribed from: lua/_sandbox_phase2.lua:_lua_invoke, lua/_sandbox_phase1.lua:_lua_set_timeout, lua/_sandbox_phase1.lua:_lua_clear_timeout_hook.
+   Gen/GenPins.v holds the digests of these functions in the current source (translate/pins.py: syntax tree without
+   docstrings, comments and layout).  A different digest means that the model is no longer known to describe the
+   code; the check then reports the broken tie and looks for a failing input. *)
+Theorem c07_models_describe_the_current_source :
+  (pin_lua_invoke, pin_lua_set_timeout, pin_lua_clear_timeout_hook) = ("77bb1b2ebc49d4c6", "6196d1a77f7ece96", "b68c104d1b68045f")%string.
+Proof. reflexivity. Qed.
+Print Assumptions c07_models_describe_the_current_source.
+End Pins.
+(* END PINS *)
